@@ -26,6 +26,10 @@ pub fn dispatch(cmd: &str, c: &Value) -> Value {
         "pansn" => pansn(c),
         #[cfg(ekg_ragc_verif)]
         "range_query" => range_query(c),
+        #[cfg(ekg_ragc_verif)]
+        "reassemble" => reassemble(c),
+        #[cfg(ekg_ragc_verif)]
+        "split_at" => split_at(c),
         _ => json!({"error": format!("unknown command {}", cmd)}),
     }
 }
@@ -573,4 +577,33 @@ pub fn queue_conc(c: &Value) -> Value {
         if got.len() != npush.load(Ordering::SeqCst) || dedup.len() != got.len() { return json!({"ok": false, "why": format!("pushed {} pulled {:?}", npush.load(Ordering::SeqCst), got), "trial": trial}); }
     }
     json!({ "ok": true, "trials": trials })
+}
+
+// ---------------------------------------------------------------- C01 kernels
+#[cfg(ekg_ragc_verif)]
+pub fn reassemble(c: &Value) -> Value {
+    use ragc_core::segment::split_at_splitters_with_size;
+    let contig = bytes(&c["contig"]);
+    let k = c["k"].as_u64().unwrap() as usize;
+    let spl: ahash::AHashSet<u64> = c["splitters"].as_array().unwrap().iter().map(|x| x.as_str().unwrap().parse::<u64>().unwrap()).collect();
+    let flags: Vec<bool> = c["flags"].as_array().unwrap().iter().map(|x| x.as_bool().unwrap()).collect();
+    let segs = split_at_splitters_with_size(&contig, &spl, k, 1000);
+    let data_rc = |d: &[u8]| -> Vec<u8> { d.iter().rev().map(|&b| match b { 0 => 3, 1 => 2, 2 => 1, 3 => 0, _ => b }).collect() };
+    let mut stored = vec![];
+    for (i, s) in segs.iter().enumerate() {
+        let f = flags.get(i).copied().unwrap_or(false);
+        let d = if !f { s.data.clone() } else if c["writer"].as_str().unwrap().starts_with("reverse_complement_sequence") { ragc_core::agc_compressor::verif_hooks::reverse_complement_sequence(&s.data) } else { data_rc(&s.data) };
+        stored.push((d, f));
+    }
+    let mut d = reader_over_segments(k as u32, &stored);
+    let out = d.get_contig("s", "s");
+    match out { Ok(v) => json!({"ok": v == contig, "contig": v}), Err(e) => json!({"ok": false, "why": format!("{}", e)}) }
+}
+
+#[cfg(ekg_ragc_verif)]
+pub fn split_at(c: &Value) -> Value {
+    let s = bytes(&c["s"]); let p = c["p"].as_u64().unwrap() as usize; let k = c["k"].as_u64().unwrap() as usize;
+    let (l, r) = ragc_core::agc_compressor::verif_hooks::split_segment_at_position(&s, p, k);
+    let ok = l.len() >= k && r.len() >= k && [&l[..], &r[k..]].concat() == s;
+    json!({"ok": ok, "left": l, "right": r})
 }
